@@ -56,6 +56,11 @@ type c15Cycle struct {
 	// 14 fields each (a busy collector: the cache file written at the end of the cycle is well above a megabyte);
 	// whatever the population, the templates acknowledged in this and earlier cycles must survive the restart
 	Bulk int `json:"bulk,omitempty"`
+	// IdleProducerLife (cycles after the first): before this cycle's instance the collector lives once with
+	// producer-enabled: false (a collector run for its stats or its mirror only): it receives data for the known
+	// templates and sFlow / NetFlow v5 datagrams, is sent the cycle's signal and must stop as cleanly as any other —
+	// and must not cost the templates acknowledged in earlier cycles
+	IdleProducerLife bool `json:"idle_producer_life,omitempty"`
 }
 
 type c15Case struct {
@@ -75,7 +80,7 @@ type c15Case struct {
 
 const c15Rule = "case = 1..3 stop/start cycles of the real collector binary (each instance with all CPUs or its affinity restricted to 1, 2, 4 or 8; 2..8 workers per protocol; in about 3 of 4 cases a generated subset of the four protocols is switched off by configuration, at least one of IPFIX / NetFlow v9 stays on; rawSocket sink and restful stats owned by the harness, per-instance pid and cache files (in a quarter of the cases given as relative names with a working directory other than the configuration's), in a quarter of the cases on a file system other than the temporary directory's) with 1..8 exporters on 127.0.0.x and ::1: " +
 	"per cycle new IPFIX / NetFlow v9 templates are announced (or all known ones redefined with a shorter definition, so that the next cache file is shorter than the one it replaces; or, in a quarter of the later cycles, a quiet life: nothing new, one known template re-announced with a single specifier changed — a scope field if it has any) and acknowledged (a data message using them reached the sink), sFlow/NetFlow v5 noise, in 1 cycle of 7 a further exporter announcing 1500 or 3000 templates first (a cache file well above a megabyte), a data burst, then SIGTERM or SIGINT after a drawn delay (in 5 of 8 cycles sent once, otherwise repeated 1..1100 ms later), " +
-	"optionally with traffic (data and announcements of fresh template ids) continuing through the shutdown window, or with single late datagrams 0.9..2.1 s after the signal following a quiet period; in a quarter of the later cycles an instance is first started while one of its UDP ports is held by another process (and signalled 1.2 s later if still there); a final verification restart follows the last cycle; " +
+	"optionally with traffic (data and announcements of fresh template ids) continuing through the shutdown window, or with single late datagrams 0.9..2.1 s after the signal following a quiet period; in a fifth of the later cycles the collector first lives once with producer-enabled: false (data, sFlow and NetFlow v5 datagrams, the cycle's signal: exit 0 within 6 s); in a quarter of the later cycles an instance is first started while one of its UDP ports is held by another process (and signalled 1.2 s later if still there); a final verification restart follows the last cycle; " +
 	"oracle per cycle = exit status 0 within 6 s of the signal, stderr free of panic / fatal error / concurrent map, both cache files exist, load and decode data for every acknowledged (exporter,id) to the reference decode, " +
 	"and after the restart data sent WITHOUT templates for every acknowledged (exporter,id) is published with the reference payload; " +
 	"non-trivial = a cycle with >= 1 acknowledged template and traffic in flight at the signal; distinct by hash"
@@ -173,6 +178,7 @@ func genC15(t *rapid.T) c15Case {
 		cy.CPUs = rapid.SampledFrom([]int{0, 0, 0, 0, 1, 2, 4, 8}).Draw(t, "cpus")
 		cy.RepeatMS = rapid.SampledFrom([]int{0, 0, 0, 1, 50, 300, 900, 1100}).Draw(t, "repeatms")
 		cy.BusyStart = i > 0 && rapid.IntRange(0, 3).Draw(t, "busystart") == 0
+		cy.IdleProducerLife = i > 0 && rapid.IntRange(0, 4).Draw(t, "idleproducer") == 0
 		cy.Bulk = rapid.SampledFrom([]int{0, 0, 0, 0, 0, 0, 0, 0, 0, 0, 0, 0, 0, 1500, 3000}).Draw(t, "bulk")
 		cy.Burst = rapid.SampledFrom([]int{0, 5, 50, 300}).Draw(t, "burst")
 		cy.Signal = rapid.SampledFrom([]string{"TERM", "TERM", "INT"}).Draw(t, "signal")
@@ -340,6 +346,49 @@ func runC15(c *c15Case) (v verdict, sig string, err error) {
 				}
 				hold.Close()
 			}
+		}
+		if !verification && c.Cycles[ci].IdleProducerLife && len(acked) > 0 {
+			extra := map[string]string{"producer-enabled": "false"}
+			for k, val := range c.Ambient {
+				extra[k] = val
+			}
+			lp, lerr := startVflow(dir, ports, e2eConfig{Workers: c.Workers, SinkAddr: sink.addr(), Disabled: disabled, Extra: extra, RelCache: c.RelCache}, false)
+			if lerr != nil {
+				if lp != nil && stderrProblem(lp.stderrText()) != "" {
+					return v, "start-crash", fmt.Errorf("cycle %d: a collector started with producer-enabled: false crashed at start-up: %s", ci, lp.stderrTail())
+				}
+				return v, "", fmt.Errorf("harness: cycle %d (producer-enabled: false): %v", ci, lerr)
+			}
+			for i := 0; i < 12; i++ {
+				k := acked[i%len(acked)]
+				r.exps[k.Exp].send(lp.port(k.Proto), r.dataMsg(k))
+				ex := r.exps[i%len(r.exps)]
+				if !disabled["nf5"] {
+					pk := wire.NF5Packet{Version: 5, Count: 1, Seq: uint32(i), Recs: []wire.Hex{make([]byte, 48)}}
+					ex.send(lp.port("nf5"), pk.Bytes())
+				}
+				if !disabled["sflow"] {
+					d := wire.SFDatagram{Agent: []byte{10, 0, 0, byte(i)}, Seq: uint32(i), Samples: []wire.SFSample{{Kind: "counter", Counter: &wire.SFCounter{Seq: 1, Recs: []wire.SFCounterRec{{Kind: "proc", Vals: []uint64{1, 2, 3, 4, 5}}}}}}}
+					ex.send(lp.port("sflow"), d.Bytes())
+				}
+			}
+			time.Sleep(150 * time.Millisecond)
+			sigNo := syscall.SIGTERM
+			if c.Cycles[ci].Signal == "INT" {
+				sigNo = syscall.SIGINT
+			}
+			lp.signal(sigNo)
+			if !lp.waitExit(6 * time.Second) {
+				lp.kill()
+				return v, "no-exit", fmt.Errorf("cycle %d: a collector running with producer-enabled: false (data, sFlow and NetFlow v5 datagrams received) is still running 6 s after SIG%s; log tail: %s", ci, c.Cycles[ci].Signal, tail(lp.stderrText(), 600))
+			}
+			if bad := stderrProblem(lp.stderrText()); bad != "" {
+				return v, "crash", fmt.Errorf("cycle %d: a collector running with producer-enabled: false crashed: %s", ci, bad)
+			}
+			if lp.status != nil {
+				return v, "exit-status", fmt.Errorf("cycle %d: a collector running with producer-enabled: false: exit status after SIG%s: %v; log tail: %s", ci, c.Cycles[ci].Signal, lp.status, tail(lp.stderrText(), 600))
+			}
+			v.label(true, "a-life-with-the-producer-switched-off")
 		}
 		proc, e := startVflow(dir, ports, e2eConfig{Workers: c.Workers, SinkAddr: sink.addr(), Disabled: disabled, Extra: c.Ambient, RelCache: c.RelCache, CPUs: cpus}, false)
 		if e != nil {
